@@ -189,15 +189,13 @@ func CheckC02(c *Ctx) {
 	// metrics of v3.0 / v3.1 (221,184,000 each) and of v4.0's threat + environmental metrics (1,179,648,000;
 	// supplemental seeded per chunk) in Gray-code order, one Set per step on one object, each configuration
 	// serialised, parsed back and compared with ==
-	for vi, api := range probe.APIs {
-		if vi == spec.V20 {
-			continue
-		}
+	for _, api := range probe.APIs {
 		api := api
 		v := api.Ver
 		var opt []int
 		for m, me := range v.Metrics {
-			if !me.Mandatory && me.Group != spec.GSupp {
+			// v2.0 is small enough to walk ALL of its 14 metrics: 139,968,000 objects, complete in both tiers
+			if v.ID == spec.V20 || (!me.Mandatory && me.Group != spec.GSupp) {
 				opt = append(opt, m)
 			}
 		}
@@ -210,7 +208,7 @@ func CheckC02(c *Ctx) {
 			nChunks *= len(v.Metrics[m].Values)
 		}
 		stride := 1
-		if c.Quick {
+		if c.Quick && v.ID != spec.V20 {
 			stride = 20
 			if v.ID == spec.V40 {
 				stride = 128
@@ -232,6 +230,9 @@ func CheckC02(c *Ctx) {
 				a[m] = uint8(x % n)
 				x /= n
 			}
+			for _, m := range walk {
+				a[m] = 0
+			}
 			o, fail := Build(api, a, HSetInOrder, w.R, nil)
 			if fail != "" {
 				c.Violate(Violation{Kind: "cannot-build-object", Version: v.Name, Expected: v.Canonical(a), Observed: fail})
@@ -247,7 +248,7 @@ func CheckC02(c *Ctx) {
 			}
 			var cnt int64
 			for {
-				if cnt&1023 == 1023 {
+				if cnt&1023 == 1023 && v.ID != spec.V20 {
 					// a base or supplemental metric changes too, so that conjunctions across groups are visited
 					for tries := 0; tries < 4; tries++ {
 						mI := w.R.Intn(v.N())
@@ -347,7 +348,7 @@ func CheckC02(c *Ctx) {
 		n += 139968000
 	}
 	c.SetReport(Report{
-		Rule:        "objects are built only through the public API in five history styles (parse canonical, parse non-canonical spelling, Set in order, Set in random order with decoys and failing Sets, clone then Set), plus zero values and every object accepted from the hostile string stream; each is serialised, parsed back, compared with == and on every Get. distinct = distinct assignments (hash set; v2 thorough: complete enumeration counted by index); non-trivial = all. Plus a Gray-code configuration walk (one Set per step): thorough visits ALL 221,184,000 optional-metric configurations of v3.0 and of v3.1 and all 1,179,648,000 threat+environmental configurations of v4.0 (quick: 1 chunk in 20 / 128). exhaustive=true (thorough tier) refers to v2.0 completely and to v3/v4 up to base and supplemental values, which are seeded.",
+		Rule:        "objects are built only through the public API in five history styles (parse canonical, parse non-canonical spelling, Set in order, Set in random order with decoys and failing Sets, clone then Set), plus zero values and every object accepted from the hostile string stream; each is serialised, parsed back, compared with == and on every Get. distinct = distinct assignments (hash set; v2 thorough: complete enumeration counted by index); non-trivial = all. Plus a Gray-code configuration walk (one Set per step): ALL 139,968,000 v2.0 objects (every metric walked) in BOTH tiers; thorough visits ALL 221,184,000 optional-metric configurations of v3.0 and of v3.1 and all 1,179,648,000 threat+environmental configurations of v4.0 (quick: 1 chunk in 20 / 128). exhaustive=true (thorough tier) refers to v2.0 completely and to v3/v4 up to base and supplemental values, which are seeded.",
 		Exhaustive:  exhaustiveV2,
 		DistinctN:   n,
 		Assumptions: []string{"v3/v4 spaces are sampled; the floor is all (metric,value) pairs and all pairs of (metric,value) choices"},
